@@ -9,7 +9,8 @@ import vlib  # noqa: E402
 
 
 def main():
-    ok, out = vlib.gen_consts()
+    with vlib.Lock("coq"):
+        ok, out = vlib.gen_consts()
     if not ok:
         print(out)
         return 1
